@@ -11,6 +11,16 @@ CHECKS = {
         text='Exploration with an independent executable model as oracle. Every (pattern, name) pair up to the length bound over the quoting-relevant alphabet is executed against the real qnmatch and compared with a reference matcher written from the manual; rule lists are fed through the real option parser into a live System and every object\'s privacyClass / isVisible is compared with the reference precedence. Held on the executions run (bounded space completed), not a proof.',
         note='Trusts the reference matcher (vf/ref/glob_ref.py) as a reading of the manual; forms the manual does not define are executed for totality only.',
         ref='4/C13'),
+    'C03': dict(
+        technique='reference-model monitor: every module and class namespace pydoctor builds is compared name by name with vars()/inspect of the same generated package imported by CPython in a fresh subprocess',
+        text='Exploration with CPython as reference. Generated importable packages in the agreed subset (taken if/try/with/for/while bodies including __name__ comparisons other than the __main__ guard, decorators, old-style wrapping, property setters, attribute docstrings, nested classes, many docstring layouts, with function-local and __main__-guarded definitions as negative controls) are imported by the interpreter and analysed by pydoctor; missing, invented or duplicated names, kinds, coroutine flags, cleaned docstrings and inferred literal types are compared for every name.',
+        note='Import-bound names (known to the generator), interpreter dunders, the harness prelude and loop targets are outside the comparison; projects CPython cannot import are discarded and counted.',
+        ref='4/C03'),
+    'C04': dict(
+        technique='reference-model monitor: Documentable.resolveName for every run-time-bound name (plain and dotted, from module and class scopes) compared with the object CPython binds, joined through globally unique definition names',
+        text='Exploration with CPython as reference. In generated acyclic multi-package projects every definition has a unique name, so the object a name denotes at run time (__module__/__qualname__) identifies one spec item; every name bound in every module and class namespace, every module-global seen from class bodies, and dotted chains through module aliases and classes are resolved by pydoctor and compared. Names imported (plain, aliased, relative, star) directly from the defining module or reached through a module alias must resolve.',
+        note='None is allowed outside the must-resolve clause; names Python would not bind are outside the quantifier.',
+        ref='4/C04'),
     'C05': dict(
         technique='reference-model monitor: Class.mro/find/docsources/inherited tables/override notes compared with CPython type() built from the same source, exhaustive over all hierarchies of <=5 classes',
         text='Exploration with CPython itself as the reference model. The same generated source is executed statement by statement by the interpreter (TypeError = inconsistent hierarchy) and analysed by pydoctor; linearisation, inconsistency reports (recorded through a System.msg monitor), member lookup, inherited docstrings, inherited-member tables and "overrides" notes are compared for every class. The space the property names (every ordered choice of bases, <=5 classes) is enumerated completely; n=6 and multi-module/generic hierarchies are sampled.',
